@@ -111,3 +111,4 @@ open Csproto
 #print axioms Csproto.C01.Source.source_roundtrip_int64
 #print axioms Csproto.C01.Source.source_roundtrip_int32
 #print axioms Csproto.Bridge.EncoderFuncs.EncodeMapEntryHeader_refines
+#print axioms Csproto.Bridge.EncoderFuncs.EncodeRaw_refines
